@@ -105,6 +105,12 @@ var selfMutants = []selfMutant{
 	{Rule: "R-INPUT", File: "input.go", Silent: true, Old: "	if z.err != nil {\n		return z.err\n	} else if len(z.buf)-1 <= z.pos+pos {\n		return io.EOF\n	}\n	return nil\n}", New: "	switch {\n	case z.err != nil:\n		return z.err\n	case z.atEnd(pos):\n		return io.EOF\n	}\n	return nil\n}\n\nfunc (z *Input) atEnd(i int) bool {\n	return len(z.buf)-1 <= z.pos+i\n}", Why: "PeekErr through a predicate helper and a tagless switch (behaviour-preserving)"},
 	{Rule: "R-WALK", File: "js/walk.go", Silent: true, Old: "	case *FuncDecl:\n		Walk(v, &n.Body)\n		Walk(v, &n.Params)\n", New: "	case *FuncDecl:\n		walkFuncParts(v, &n.Body, &n.Params)\n", Why: "function parts walked by a helper that receives their addresses (behaviour-preserving)"},
 	{Rule: "R-JSONKEY", File: "json/parse.go", Silent: true, Old: "func (p *Parser) State() State {\n	return p.state[len(p.state)-1]\n}", New: "func (p *Parser) State() State {\n	return p.top()\n}\n\nfunc (p *Parser) top() State {\n	return p.state[len(p.state)-1]\n}", Why: "State() through an accessor of the top of the stack (behaviour-preserving)"},
+	// operator levels as data (peval.go): the arm reads its levels from a look-up
+	{Rule: "R-PREC", File: "js/parse.go", Silent: true, Old: "		case BitOrToken:\n			if OpBitOr < prec {\n				return left\n			} else if precLeft < OpBitOr {\n				p.fail(\"expression\")\n				return nil\n			}\n			p.next()\n			left = &BinaryExpr{tt, left, p.parseExpression(OpBitXor)}\n			precLeft = OpBitOr\n", New: "		case BitOrToken:\n			lv := levelsOfOp(tt)\n			if lv.prec < prec {\n				return left\n			} else if precLeft < lv.left {\n				p.fail(\"expression\")\n				return nil\n			}\n			p.next()\n			left = &BinaryExpr{tt, left, p.parseExpression(lv.right)}\n			precLeft = lv.prec\n", Why: "the | arm reads its levels from a look-up function (behaviour-preserving)"},
+	{Rule: "R-PREC", File: "js/parse.go", Old: "		case BitOrToken:\n			if OpBitOr < prec {\n				return left\n			} else if precLeft < OpBitOr {\n				p.fail(\"expression\")\n				return nil\n			}\n			p.next()\n			left = &BinaryExpr{tt, left, p.parseExpression(OpBitXor)}\n			precLeft = OpBitOr\n", New: "		case BitOrToken:\n			lv := levelsOfOp(tt)\n			if lv.prec < prec {\n				return left\n			} else if precLeft < lv.left {\n				p.fail(\"expression\")\n				return nil\n			}\n			p.next()\n			left = &BinaryExpr{tt, left, p.parseExpression(lv.right)}\n			precLeft = lv.prec\n", Why: "the | arm reads its levels from a look-up function whose right-operand level is wrong"},
+	// byte composition written as a loop over the width in a shared helper (peval.go with loops)
+	{Rule: "R-LAYOUT", File: "binary.go", Silent: true, Old: "	data := r.ReadBytes(2)\n	if len(data) < 2 {\n		return 0\n	} else if r.ByteOrder == binary.LittleEndian {\n		return uint16(data[1])<<8 | uint16(data[0])\n	}\n	return uint16(data[0])<<8 | uint16(data[1])\n}", New: "	return uint16(r.readUintN(2))\n}", Why: "ReadUint16 through a loop over the width (behaviour-preserving)"},
+	{Rule: "R-LAYOUT", File: "binary.go", Old: "	data := r.ReadBytes(2)\n	if len(data) < 2 {\n		return 0\n	} else if r.ByteOrder == binary.LittleEndian {\n		return uint16(data[1])<<8 | uint16(data[0])\n	}\n	return uint16(data[0])<<8 | uint16(data[1])\n}", New: "	return uint16(r.readUintN(2))\n}", Why: "ReadUint16 through a loop over the width with the byte orders exchanged"},
 	// callback form of the traversal (walkEquivalents / cbParam): the visitor reaches the helper inside a closure
 	{Rule: "R-WALK", File: "js/walk.go", Silent: true, Old: "	case *AST:\n		Walk(v, &n.BlockStmt)\n", New: "	case *AST:\n		eachASTChild(n, func(c INode) {\n			Walk(v, c)\n		})\n", Why: "children handed to a callback that walks them (behaviour-preserving)"},
 	{Rule: "R-WALKORDER", File: "js/walk.go", Silent: true, Old: "	case *AST:\n		Walk(v, &n.BlockStmt)\n", New: "	case *AST:\n		eachASTChild(n, func(c INode) {\n			Walk(v, c)\n		})\n", Why: "children handed to a callback that walks them (behaviour-preserving) "},
@@ -131,6 +137,10 @@ var selfMutants = []selfMutant{
 var selfMutantAppend = map[string]string{
 	"function parts walked by a helper that receives their addresses (behaviour-preserving)":        "\nfunc walkFuncParts(v IVisitor, body *BlockStmt, params *Params) {\n	Walk(v, body)\n	Walk(v, params)\n}\n",
 	"constructor captures package-level memory (variable added below)":                              "\nvar sharedStates = make([]State, 0, 4)\n",
+	"the | arm reads its levels from a look-up function (behaviour-preserving)":                     "\ntype opLevels struct{ prec, left, right OpPrec }\n\nfunc levelsOfOp(tt TokenType) opLevels {\n	switch tt {\n	case BitOrToken:\n		return opLevels{OpBitOr, OpBitOr, OpBitXor}\n	}\n	return opLevels{}\n}\n",
+	"the | arm reads its levels from a look-up function whose right-operand level is wrong":         "\ntype opLevels struct{ prec, left, right OpPrec }\n\nfunc levelsOfOp(tt TokenType) opLevels {\n	switch tt {\n	case BitOrToken:\n		return opLevels{OpBitOr, OpBitOr, OpBitOr}\n	}\n	return opLevels{}\n}\n",
+	"ReadUint16 through a loop over the width (behaviour-preserving)":                               "\nfunc (r *BinaryReader) readUintN(size int) uint64 {\n	data := r.ReadBytes(int64(size))\n	if len(data) < size {\n		return 0\n	}\n	var v uint64\n	if r.ByteOrder == binary.LittleEndian {\n		for i := size - 1; 0 <= i; i-- {\n			v = v<<8 | uint64(data[i])\n		}\n	} else {\n		for i := 0; i < size; i++ {\n			v = v<<8 | uint64(data[i])\n		}\n	}\n	return v\n}\n",
+	"ReadUint16 through a loop over the width with the byte orders exchanged":                       "\nfunc (r *BinaryReader) readUintN(size int) uint64 {\n	data := r.ReadBytes(int64(size))\n	if len(data) < size {\n		return 0\n	}\n	var v uint64\n	if r.ByteOrder != binary.LittleEndian {\n		for i := size - 1; 0 <= i; i-- {\n			v = v<<8 | uint64(data[i])\n		}\n	} else {\n		for i := 0; i < size; i++ {\n			v = v<<8 | uint64(data[i])\n		}\n	}\n	return v\n}\n",
 	"children handed to a callback that walks them (behaviour-preserving)":                          "\nfunc eachASTChild(n *AST, visit func(INode)) {\n	visit(&n.BlockStmt)\n}\n",
 	"children handed to a callback that walks them (behaviour-preserving) ":                         "\nfunc eachASTChild(n *AST, visit func(INode)) {\n	visit(&n.BlockStmt)\n}\n",
 	"callback walks the children with the visitor Walk was called with, not the one Enter returned": "\nfunc eachASTChild(n *AST, visit func(INode)) {\n	visit(&n.BlockStmt)\n}\n",
